@@ -35,6 +35,12 @@ def run_variant(v, only):
     try:
         shutil.copytree(REPO / "unit_scaling", tmp / "unit_scaling", ignore=shutil.ignore_patterns("__pycache__", "tests"))
         for rel, old, new in v["edits"]:
+            if rel == "*" and old == "ast-roundtrip":
+                import ast as _ast
+
+                for f in (tmp / "unit_scaling").rglob("*.py"):
+                    f.write_text(_ast.unparse(_ast.parse(f.read_text())) + "\n")
+                continue
             p = tmp / rel
             s = p.read_text()
             if s.count(old) != 1:
